@@ -17,21 +17,21 @@ Definition C09_logical : Prop :=
                /\ parse_padded_epath bs = Some [SLogical lt v].
 
 (* ---- any path: whenever PADDED_EPATH.encode(segments, length=True[, pad_length]) EMITS bytes for
-   segments that have an intended reading (and are not in [excluded]), these are: the word count,
-   the optional zero pad byte, and an even-length body of exactly that many words which the
-   independent parser reads back as exactly the intended names and numbers *)
-Definition C09_epath (excluded : seg -> bool) : Prop :=
+   segments that have an intended reading, these are: the word count, the optional zero pad byte,
+   and an even-length body of exactly that many words which the independent parser reads back as
+   exactly the intended names and numbers *)
+Definition C09_epath : Prop :=
   forall segs ssegs pad_length out,
-    denote_all segs = Some ssegs -> existsb excluded segs = false ->
+    denote_all segs = Some ssegs ->
     epath_encode padded_PADDED_EPATH segs true pad_length = Ok out ->
     exists w body, out = w :: (if pad_length then [0] else []) ++ body /\ len body = 2 * w
                    /\ parse_padded_epath body = Some ssegs /\ parse_counted pad_length out = Some ssegs.
 
 (* ---- and it does emit, unless the path needs more than 255 words (then DataError, never a
    truncated count) *)
-Definition C09_epath_total (excluded : seg -> bool) : Prop :=
+Definition C09_epath_total : Prop :=
   forall segs ssegs pad_length,
-    denote_all segs = Some ssegs -> existsb excluded segs = false ->
+    denote_all segs = Some ssegs ->
     exists body, encode_segs padded_PADDED_EPATH segs = Ok body /\ Nat.even (length body) = true
       /\ parse_padded_epath body = Some ssegs
       /\ epath_encode padded_PADDED_EPATH segs true pad_length
@@ -59,18 +59,14 @@ Definition C09_tag : Prop :=
          = (if len body / 2 <=? 255 then Ok (Some (counted false body)) else Err DataError)
       /\ (len body / 2 <= 255 -> parse_counted false (counted false body) = Some (tag_reading p inst use)).
 
-(* ---- routes: hops with named or numeric ports (up to [pmax]), slot links (int or decimal text)
-   and IPv4 links of every length, optionally followed by further segments (the message-router
-   path of Forward Open): what is emitted reads back as exactly those ports and link addresses *)
-Definition C09_route (pmax : Z) : Prop :=
-  forall hops extra extra_r pad_length out,
-    forallb (wf_hop pmax) hops = true -> denote_all extra = Some extra_r -> existsb port_ge15 extra = false ->
-    epath_encode padded_PADDED_EPATH (map hop_seg hops ++ extra) true pad_length = Ok out ->
-    parse_counted pad_length out = Some (map hop_reading hops ++ extra_r).
-
-Definition C09_route_total : Prop :=
+(* ---- routes: hops with named ports or ANY CIP port number 1..65535 (above 14: port identifier
+   15 + the 16-bit extended port number), slot links (int or decimal text) and IPv4 links of every
+   length (link size byte + pad), optionally followed by further segments (the message-router path
+   of Forward Open): emitted unless longer than 255 words, and what is emitted reads back as exactly
+   those ports and link addresses *)
+Definition C09_route : Prop :=
   forall hops extra extra_r pad_length,
-    forallb (wf_hop 14) hops = true -> denote_all extra = Some extra_r -> existsb port_ge15 extra = false ->
+    forallb (wf_hop 65535) hops = true -> denote_all extra = Some extra_r ->
     exists body, Nat.even (length body) = true
       /\ parse_padded_epath body = Some (map hop_reading hops ++ extra_r)
       /\ epath_encode padded_PADDED_EPATH (map hop_seg hops ++ extra) true pad_length
@@ -79,61 +75,31 @@ Definition C09_route_total : Prop :=
           parse_counted pad_length (counted pad_length body) = Some (map hop_reading hops ++ extra_r)).
 
 (* ================================================================ full strength *)
-(* nothing excluded; every CIP port number 1..65535 *)
 Definition C09_full : Prop :=
-  C09_logical /\ C09_epath (fun _ => false) /\ C09_request /\ C09_tag /\ C09_route 65535.
+  C09_logical /\ C09_epath /\ C09_epath_total /\ C09_request /\ C09_tag /\ C09_route.
 
-(* The faithful model falsifies it: PortSegment has no extended port identifier.  Port 32, slot 0
-   is emitted as 20 00, which is the logical segment "class 0" (DESIGN F20). *)
-Theorem C09_full_refuted : ~ C09_full.
-Proof.
-  intros (_ & _ & _ & _ & Hr).
-  destruct bad_hop_facts as (Hwf & _ & Henc & Hparse).
-  specialize (Hr [bad_hop] [] [] false [1; 32; 0]). cbn [map app] in Hr.
-  rewrite Hparse in Hr. specialize (Hr ltac:(cbn [forallb]; now rewrite Hwf) eq_refl eq_refl Henc).
-  discriminate Hr.
-Qed.
-Print Assumptions C09_full_refuted.
-
-(* the parts of the full statement that hold without any guard *)
-Theorem C09_logical_holds : C09_logical.
-Proof. exact logical_ok. Qed.
-Print Assumptions C09_logical_holds.
-
-Theorem C09_request_holds : C09_request.
-Proof. exact request_path_ok. Qed.
-Print Assumptions C09_request_holds.
-
-Theorem C09_tag_holds : C09_tag.
-Proof. exact tag_path_ok. Qed.
-Print Assumptions C09_tag_holds.
-
-(* ================================================================ the guard and what holds under it *)
-(* exactly the excluded class: a NUMERIC port of 15 or more in a port segment *)
-Definition C09_guard (s : seg) : bool := port_ge15 s.
-
-Theorem C09_guarded :
-  C09_logical /\ C09_epath C09_guard /\ C09_epath_total C09_guard /\ C09_request /\ C09_tag
-  /\ C09_route 14 /\ C09_route_total.
+Theorem C09_holds : C09_full.
 Proof.
   split; [exact logical_ok|]. split; [exact epath_emitted_ok|]. split; [exact epath_total|].
-  split; [exact request_path_ok|]. split; [exact tag_path_ok|]. split; [exact route_emitted_ok|exact route_total].
+  split; [exact request_path_ok|]. split; [exact tag_path_ok|exact route_total].
 Qed.
-Print Assumptions C09_guarded.
+Print Assumptions C09_holds.
 
-(* the guard is exact: every port number 15..255 (with any slot link) is emitted as bytes that do
-   NOT read back as that port, and every port number above 255 is refused with DataError (nothing
-   is emitted, so nothing is mis-addressed) *)
-Theorem C09_guard_exact :
-  (forall n z, 15 <= n <= 255 -> 0 <= z <= 255 ->
-     encode_seg true (Port (inl n) (LinkInt z)) = Ok [n; z] /\ parse_padded_epath [n; z] <> Some [SPort n [z]])
-  /\ (forall n link, 256 <= n -> encode_seg true (Port (inl n) link) = Err DataError).
-Proof. split; [exact port_15_255_misread|exact port_gt255_rejected]. Qed.
-Print Assumptions C09_guard_exact.
+(* outside the port numbers: a number that does not fit 16 bits, or a negative one, is refused
+   with DataError (nothing is emitted); 0 (reserved, not a port number) is written as it is and the
+   strict parser refuses the result *)
+Theorem C09_port_range :
+  (forall n link, 65536 <= n -> encode_seg true (Port (inl n) link) = Err DataError)
+  /\ (forall n link, n < 0 -> encode_seg true (Port (inl n) link) = Err DataError)
+  /\ (forall z, 0 <= z <= 255 ->
+        encode_seg true (Port (inl 0) (LinkInt z)) = Ok [0; z] /\ parse_padded_epath [0; z] = None).
+Proof. split; [exact port_gt65535_rejected|]. split; [exact port_negative_rejected|exact port_zero_unreadable]. Qed.
+Print Assumptions C09_port_range.
 
 (* ================================================================ non-vacuity *)
 (* Program:Main.tag[1,256,65536].m[7] with symbol-instance addressing requested (ignored under
    program scope); arr[70000].x addressed by instance id 300; the route bp/3, enet/10.10.10.1
+   then port 300 (extended port identifier) slot "7",
    followed by the message-router path *)
 Definition ex_tag1 : tagpath :=
   {| tp_program := Some (txt "Main");
@@ -145,7 +111,8 @@ Definition ex_tag2 : tagpath :=
      tp_members := [{| lv_name := txt "x"; lv_idx := [] |}] |}.
 Definition ex_hops : list hop :=
   [{| hop_port := inr (txt "bp"); hop_to := HSlot 3 |};
-   {| hop_port := inl 2; hop_to := HAddr (txt "10") (txt "10") (txt "10") (txt "1") |}].
+   {| hop_port := inl 2; hop_to := HAddr (txt "10") (txt "10") (txt "10") (txt "1") |};
+   {| hop_port := inl 300; hop_to := HSlotStr (txt "7") |}].
 Definition ex_mr : list seg := [Logical (txt "class_id") (LBytes [2]); Logical (txt "instance_id") (LInt 1)].
 
 Example C09_nonvacuous :
@@ -157,9 +124,9 @@ Example C09_nonvacuous :
   /\ tag_reading ex_tag2 (Some 300) true = [SLogical 0 107; SLogical 1 300; SLogical 2 70000; SSymbol (txt "x")]
   /\ tag_request_path (render_tag ex_tag2) (Some 300) true
      = Ok (Some [8; 32; 107; 37; 0; 44; 1; 42; 0; 112; 17; 1; 0; 145; 1; 120; 0])
-  /\ forallb (wf_hop 14) ex_hops = true
+  /\ forallb (wf_hop 65535) ex_hops = true
   /\ epath_encode padded_PADDED_EPATH (map hop_seg ex_hops ++ ex_mr) true true
-     = Ok [9; 0; 1; 3; 18; 10; 49; 48; 46; 49; 48; 46; 49; 48; 46; 49; 32; 2; 36; 1]
-  /\ parse_counted true [9; 0; 1; 3; 18; 10; 49; 48; 46; 49; 48; 46; 49; 48; 46; 49; 32; 2; 36; 1]
-     = Some [SPort 1 [3]; SPort 2 (txt "10.10.10.1"); SLogical 0 2; SLogical 1 1].
+     = Ok [11; 0; 1; 3; 18; 10; 49; 48; 46; 49; 48; 46; 49; 48; 46; 49; 15; 44; 1; 7; 32; 2; 36; 1]
+  /\ parse_counted true [11; 0; 1; 3; 18; 10; 49; 48; 46; 49; 48; 46; 49; 48; 46; 49; 15; 44; 1; 7; 32; 2; 36; 1]
+     = Some [SPort 1 [3]; SPort 2 (txt "10.10.10.1"); SPort 300 [7]; SLogical 0 2; SLogical 1 1].
 Proof. vm_compute. repeat split. Qed.
